@@ -117,6 +117,7 @@ def tlc(module_path, cfg_text, workers=4, timeout=900, env_extra=None, simulate=
         jopts.append("-Dtlc2.tool.queue.IStateQueue=StateDeque")
     cmd = ["java"] + jopts + ["-cp", TLA_CP, "tlc2.TLC", "-workers", str(workers), "-metadir", os.path.join(work, "meta"),
                                "-cleanup", "-noGenerateSpecTE", "-config", cfg]
+    cmd += ["-seed", str(seed())]      # Randomization!RandomSubset and -simulate draw from TLC's seed
     if simulate:
         cmd += ["-simulate", simulate]
     cmd.append(module_path)
